@@ -71,7 +71,8 @@ class C11(Check):
     prop_file = "theories/Properties/Properties_C11.v"
     theorems = ("C11_safety", "C11_down_only_to_waiting", "C11_callback_at_most_once",
                 "C11_counters_monotone", "C11_conservation", "C11_tree_wf",
-                "C11_quiescence_stable", "C11_no_deadlock", "C11_liveness", "C11_liveness_drain")
+                "C11_quiescence_stable", "C11_no_deadlock", "C11_liveness", "C11_liveness_drain",
+                "C11_double_count_refuted")
     comp = "term4c"
     extract_file = "theories/Extract/Extract_Term4C.v"
     extracted = ("term4c",)
@@ -86,21 +87,30 @@ class C11(Check):
                   "the tree is well formed. Liveness: from every reachable globally quiescent configuration and for every schedule, "
                   "quiescence persists, at most 32N+15+2|net| choices have an effect (deliveries of pending control messages: three "
                   "waves), and whenever the control channels are empty every process is TERMINATED; the oldest-first delivery "
-                  "schedule terminates everywhere. Full level for the model; the model is tied to the real module by stepwise "
-                  "differential runs of N simulated ranks.")
+                  "schedule terminates everywhere. The theorems assume that every application message is counted sent once and "
+                  "received once; C11_double_count_refuted shows the necessity (one more incoming_message_end for one message: "
+                  "quiescent for ever, never TERMINATED). Full level for the model; the model is tied to the real module by stepwise "
+                  "differential runs of N simulated ranks, and the call sites of the counting entry points in the communication "
+                  "layer by real 2-4 rank PTG runs on the four-counter detector whose activations are completed in several steps "
+                  "(two rendez-vous flows, large + CTL, large + short): the runs terminate, data are right, and the calls of "
+                  "outgoing_message_start summed over the ranks equal those of incoming_message_start and incoming_message_end.")
     level_note = ("Trusted: Coq kernel, extraction, the harness (stub of parsec_ce.send_am, one address space, rank i = taskpool id "
                   "i+1, tp_id rewritten on delivery); one model step = one call into the module (the rwlock makes each call atomic, "
                   "C33); the environment discipline of termdet.h (work appears on an idle taskpool only while a message is being "
                   "received, messages are sent by busy taskpools, counters never negative); uint32 counters do not wrap.")
-    technique = ("Coq proof (inductive invariant over micro-steps, ghost wave snapshots) + stepwise differential run of the real "
-                 "module (N ranks in one process, simulated network) against the extracted model + property oracle")
+    technique = ("Coq proof (inductive invariant over micro-steps, ghost wave snapshots, potential function) + stepwise differential "
+                 "run of the real module (N ranks in one process, simulated network) against the extracted model + T-obs: real "
+                 "mpiexec runs of a multi-flow PTG on the dynamic detector with counting wrappers around the module's function "
+                 "table and a watchdog + property oracle")
     rule = ("directed families: two application messages held back across a wave boundary while control messages overtake "
             "them (accidental S=R in the second wave with unequal previous counts; every root/other-subtree position, N = 3..5, "
             "to 7 in the thorough tier and in the search), templates (message crossing a wave, receipt still open at both waves, reactivation after reporting idle, "
             "late ready with delayed UP) instantiated for N = 2..7 and random histories of <= 60 events for N = 1..7, most with "
             "the quiesce-and-drain epilogue; non-trivial = at least one application message or N >= 2 with a delivery; "
             "distinct = distinct case text")
-    trusted = ("harness h_term4c.c: simulated per-pair FIFO network replacing parsec_ce.send_am, taskpool ids i+1 registered in "
+    trusted = ("harness/h_term4c_mpi.jdf: driver that replaces the taskpool's tdm.module by a counting copy after taskpool creation, "
+               "watchdog thread; Open MPI under oversubscription",
+               "harness h_term4c.c: simulated per-pair FIFO network replacing parsec_ce.send_am, taskpool ids i+1 registered in "
                "the real taskpool table, public dispatch entry used for deliveries",)
     assumptions = ("each module entry point is atomic with respect to the others on the same taskpool (it takes the monitor's write lock; C33)",
                    "environment discipline of termdet.h: nb_tasks / nb_pending_actions never go below zero and leave zero only "
